@@ -409,6 +409,8 @@ def run_asm(job, res):
         res['paths'] += eng.stats['paths']
         res['queries'] += eng.stats['queries']
         res['solver_s'] += eng.stats['solver_s']
+        for u in eng.unexplored:
+            res['inconclusive'].append('asm %s: %s' % (tmpl0, u))
         for r in rs:
             if r[0] == 'OK':
                 res['obligations'] += 1
